@@ -10,6 +10,26 @@ CHECKS = {
    note="Trusts the 60-line reference model R-SAN; alphabets and length bounds as stated in evidence; behaviour the statement leaves open (cut point, padded integers, separator-less mode) is only checked for invariants.",
    technique="bounded exhaustive enumeration (string trie x settings product) of the real code against a reference model",
    ref="C16"),
+ "C08": dict(cat="model_checking",
+   text="Every string over a 9-symbol grammar-relevant alphabet (digits, letter, - . + v, non-ASCII digit and letter) up to length 7 (quick) / 9 (thorough), every string of the SemVer language up to length 9/11 with all its single-symbol edits, and boundary numerals in every numeric position are fed to the real SemVer::from_str / Display and `zerv check`; verdict and printed form are compared with an explicit reference DFA of the SemVer 2.0.0 BNF (itself cross-checked against the semver crate on the explored space). Right level: acceptance and losslessness are per-string facts; small-scope exhaustion plus edit-distance-1 closure reaches every boundary of the grammar.",
+   note="Trusts the reference DFA (cross-checked with the semver crate) ; rejecting numerals above u64 is accepted, altering them is not; longer strings / other symbols not explored.",
+   technique="bounded exhaustive string enumeration (trie + grammar-guided edit closure) against a reference DFA", ref="C08"),
+ "C09": dict(cat="model_checking",
+   text="Character-level trie (18 symbols, length <=5/6), token-level trie (28 tokens incl. upper-case and case-folding look-alikes, depth 4/5), the full product of epoch/release/separator/label/number/post/dev/local/prefix spelling variants and boundary numerals are run through the real PEP440::from_str / Display / Ord and `zerv check`; acceptance, normal form, idempotence and equality-with-original are judged by an interpreter of the Appendix-B regex written as an AST (validated on >1.2M ASCII strings per run against packaging 26.3).",
+   note="Trusts R-PEP (validated against packaging on the ASCII corpus each run; on non-ASCII input the statement's 'ASCII' decides). Rejection above u32 accepted, alteration not. No surrounding white space explored.",
+   technique="bounded exhaustive enumeration (char trie, token trie, spelling-variant product) against a regex-AST reference matcher", ref="C09"),
+ "C10": dict(cat="model_checking",
+   text="All ordered pairs of a universe of parsed SemVer versions (core numbers {0,1,2,10}^3 x identifier lists of length <=3 over {0,2,10,A,a,a0,B,-}; plus build-metadata and u64-wide sub-universes) are compared by the real Ord/PartialEq and by an independent SemVer 2.0.0 section-11 comparator on decimal strings; antisymmetry, eq<=>Equal and partial_cmp consistency per pair; transitivity on all triples of a sub-universe without any reference; find_max_version_tag on all ordered selections of <=3 tags.",
+   note="Trusts the reference comparator; versions outside the universes not explored.",
+   technique="exhaustive pair/triple enumeration over a finite version universe against a reference comparator", ref="C10"),
+ "C11": dict(cat="model_checking",
+   text="A field universe (epoch x release x pre x post x dev x local) of abstract PEP 440 versions, each written in 5 spellings and parsed by the real parser; ALL ordered pairs of all spellings compared by the real Ord/PartialEq against the lexicographic key stated in the property, spellings of one version must be equal; transitivity on all triples of a sub-universe; find_max_version_tag on small tag sets.",
+   note="The order is the key stated in C11, not packaging's; field values outside the universe not explored.",
+   technique="exhaustive pair/triple enumeration over a finite version x spelling universe against a reference key", ref="C11"),
+ "C17": dict(cat="model_checking",
+   text="resolve_timestamp on every day 1970-01-01..2199-12-31 at the first/last second (thorough: every hour) x 16 patterns and every second of 12 boundary days, the 11 CalVer presets through the real in-process pipeline on month boundaries (thorough: every day), every pattern by name in a custom schema in each section, and the bumped/last timestamp precedence table, all judged by an independent days-from-civil calendar. The harness process runs under TZ=JST-9 and a binary slice under three TZ values, so local-time dependence is observable.",
+   note="Trusts R-CAL (self-tested on fixed instants). Fixed-width forms only observable at resolve_timestamp.",
+   technique="exhaustive enumeration of instants x patterns x presets against a reference calendar", ref="C17"),
 }
 
 def main():
